@@ -275,6 +275,21 @@ def judge_protocol(case) -> Verdict:
                 v.fail("proto:Ace-rendered-line-rereads-differently", {"case": case, "line": ace.line})
             if protocol_nr and ace.line != f"permit {nr} any any":
                 v.fail("proto:Ace-protocol_nr-text", {"case": case, "line": ace.line})
+        # the switch is spelling only: an operation that consumes the protocol (cover test between two entries)
+        # answers the same whichever way either entry is rendered
+        if want is not None:
+            other = 17 if want != 17 else 6
+            for pn_top in (False, True):
+                for pn_bot in (False, True):
+                    top = Ace(f"permit {tok} any any", platform=platform, protocol_nr=pn_top)
+                    ip_top = Ace("permit ip any any", platform=platform, protocol_nr=pn_top)
+                    same = Ace(f"permit {tok} host 10.0.0.1 any", platform=platform, protocol_nr=pn_bot)
+                    diff = Ace(f"permit {other} host 10.0.0.1 any", platform=platform, protocol_nr=pn_bot)
+                    answers = (same.shadow_of(top), same.shadow_of(ip_top), diff.shadow_of(top))
+                    if answers != (True, True, want == 0):
+                        v.fail("proto:cover-test-depends-on-the-numeric-switch",
+                               {"case": case, "top_nr": pn_top, "bottom_nr": pn_bot, "answers": answers,
+                                "want": (True, True, want == 0)})
     return v
 
 
